@@ -1,4 +1,4 @@
-\* thorough, depth: 3 contracts, call depth 3, 6 statements, 2 TRY levels
+\* thorough, depth: 3 contracts, call depth 3, 7 statements, 2 TRY levels
 SPECIFICATION Spec
 CONSTANTS
   NC = 3
@@ -8,7 +8,7 @@ CONSTANTS
   Flags = {15}
   NVals = {}
   MaxDepth = 3
-  MaxSteps = 6
+  MaxSteps = 7
   MaxTry = 2
   MaxSub = 1
   Fund = 0
